@@ -70,7 +70,9 @@ func genOptionsWF(r *Rng, tier string) *Node {
 		add("size", nInt(int64(r.Intn(100000))))
 	}
 	if r.Chance(60) {
-		if r.Chance(10) {
+		if r.Chance(6) {
+			add("chunk", nStr(nil)) // a chunk entry whose value is the empty string: present, and empty
+		} else if r.Chance(10) {
 			add("chunk", nBin(genChunkID(r)))
 		} else {
 			add("chunk", nStr(genChunkID(r)))
